@@ -71,6 +71,52 @@ fn main() {
     let thorough = a[3] == "thorough";
     let out = std::io::stdout();
     let mut out = std::io::BufWriter::new(out.lock());
+    if a[3] == "tex" || a[3] == "tex-thorough" {
+        // the texture samplers under this build's float backend (floor!), in the record format of TV_Tex (C12)
+        #[cfg(any(feature = "libm", feature = "mm", feature = "std"))]
+        use re::render::tex::SamplerClamp;
+        use re::render::tex::{uv, SamplerOnce, SamplerRepeatPot, Texture};
+        use re::util::buf::Buf2;
+        let mut rng = Rng(seed ^ 0x7E87);
+        let n = if a[3] == "tex" { 6_000 } else { 100_000 };
+        for i in 0..n {
+            let pot = i % 2 == 0;
+            let (w, h) = if pot { (1u32 << (rng.next() % 6), 1u32 << (rng.next() % 5)) } else { (1 + (rng.next() % 9) as u32, 1 + (rng.next() % 7) as u32) };
+            let mut coord = |rng: &mut Rng, n: u32| -> f32 {
+                match rng.next() % 8 {
+                    0 => f32::from_bits(rng.next() as u32),
+                    1 | 2 => ((rng.unit() * 3.0 - 1.0) * n as f64) as f32,
+                    3 => ((rng.next() % (4 * n as u64 + 1)) as f32 - 2.0 * n as f32) / 2.0,
+                    // halves where the spacing of f32 is exactly one half (2^22 .. 2^23), both signs
+                    4 => { let v = 4194304.0 + (rng.next() % 4194304) as f32 + 0.5; if rng.next() % 2 == 0 { v } else { -v } }
+                    5 => { let v = (1u64 << (rng.next() % 31)) as f32 + [0.0f32, 0.5, -0.5, 0.25][(rng.next() % 4) as usize]; if rng.next() % 2 == 0 { v } else { -v } }
+                    6 => [0.0f32, -0.0, f32::INFINITY, f32::NEG_INFINITY, f32::NAN, -1e-45, 1e-45, 2147483648.0, -2147483648.0, -2147483520.0][(rng.next() % 10) as usize],
+                    _ => ((rng.unit() - 0.5) * 4.0e9) as f32,
+                }
+            };
+            let (u, v) = (coord(&mut rng, w), coord(&mut rng, h));
+            let tex = Texture::from(Buf2::new_with((w, h), |x, y| (x as i32, y as i32)));
+            let tc = uv(u, v);
+            let res = |r: Option<(i32, i32)>| match r { Some((x, y)) => json!(["texel", x, y]), None => json!(["panic", 0, 0]) };
+            let mut j = 0;
+            let mut push = |out: &mut dyn Write, smp: &str, r: Option<(i32, i32)>| {
+                writeln!(out, "{}", json!({"k": format!("x-{be}-{i}#{j}"), "be": be, "smp": smp, "op": "abs", "w": w, "h": h, "sub": 0,
+                    "u": rec(u), "v": rec(v), "res": res(r)})).unwrap();
+                j += 1;
+            };
+            if w.is_power_of_two() && h.is_power_of_two() {
+                match guard(|| SamplerRepeatPot::new(&tex)) {
+                    Some(s) => push(&mut out, "repeat", guard(|| s.sample_abs(&tex, tc))),
+                    None => push(&mut out, "repeat", None),
+                }
+            }
+            #[cfg(any(feature = "libm", feature = "mm", feature = "std"))]
+            push(&mut out, "clamp", guard(|| SamplerClamp.sample_abs(&tex, tc)));
+            push(&mut out, "once", guard(|| SamplerOnce.sample_abs(&tex, tc)));
+        }
+        out.flush().unwrap();
+        return;
+    }
     #[cfg(any(feature = "libm", feature = "mm", feature = "std"))]
     if a[3] == "anglewrap" || a[3] == "anglewrap-thorough" {
         // Angle::wrap under this build's float backend, in the record format of TV_Angle (C18)
